@@ -262,6 +262,14 @@ def judge_solution(acc, A, x, b, solver, lda):
     return ok, {'err': err, 'bound': bound}
 
 
+def colscale(shape, rscale):
+    if shape == 'blk' and rscale != 1.0:
+        v = np.ones(lm.BLOCK_COLUMNS)
+        v[1] = rscale
+        return v
+    return rscale
+
+
 def exec_linsolve(case):
     import pymoto as pym
     acc = Acc(case)
@@ -279,8 +287,11 @@ def exec_linsolve(case):
     axes = case.get('axes', {})
     for shape, rscale in [(sh, rs) for sh in axes.get('shape', lm.RHS_SHAPES) for rs in axes.get('rscale', [1.0])]:
         # rscale: magnitude of the right-hand side (a linear system is solved as well for loads of order 1e-9)
-        b = lm.rhs(n, shape, cplx_rhs, t) * rscale
-        b2 = lm.rhs(n, shape, cplx_rhs, t, off=467) * rscale
+        # a block gets ONE small column next to columns of order 1 (load cases in different units); vectors and single
+        # columns are scaled as a whole
+        cs = colscale(shape, rscale)
+        b = lm.rhs(n, shape, cplx_rhs, t) * cs
+        b2 = lm.rhs(n, shape, cplx_rhs, t, off=467) * cs
         for solver in solver_names(cls, storage):
             for lda in axes.get('lda', [True, False]):
                 for flags in axes.get('flags', ['none', 'given']):
@@ -347,7 +358,8 @@ def run_linsolve_point(acc, m, sA, sb, A, b, b2, cls, sig, point, solver, lda, c
             acc.violation('linsolve_shape', dict(sig, step=step), point, got=list(x.shape), want=list(rhs_now.shape))
             acc.outcomes.add('shape')
             return
-        rs = point.get('rscale', 1.0)      # judged in units of the right-hand side's magnitude
+        rs = colscale(point['shape'], point.get('rscale', 1.0)) if rhs_now.ndim == 2 and rhs_now.shape[1] == lm.BLOCK_COLUMNS \
+            else point.get('rscale', 1.0)      # judged in units of each right-hand side's magnitude
         ok, det = judge_solution(acc, A, x / rs, rhs_now / rs, solver, lda)
         if not ok:
             mg = mag(det.get('err', det.get('rel_residual', 0)) / max(maxabs(rhs_now), 1e-300))
